@@ -12,6 +12,7 @@ import (
 	"io"
 	"log/slog"
 	"path/filepath"
+	"sort"
 	"sync"
 	"time"
 
@@ -91,6 +92,7 @@ type simWaiter struct {
 // simSys is the harness-side view of one logical log: the world plus the
 // reference model of what has been committed and acknowledged.
 type simSys struct {
+	realDir              string // set when real stores are attached: clones get real stores of their own
 	admittedBeforeIssuer int
 	t                    simFataler
 	w                    *simWorld
@@ -151,6 +153,26 @@ func (s *simSys) clone(dir string) *simSys {
 	n.w.viol = append([]string(nil), s.w.viol...)
 	s.w.mu.Unlock()
 	n.w.cacheRestore(s.w.cacheSnapshot())
+	if s.realDir != "" {
+		// a real LocalBackend directory and SQLite lock database holding the same state
+		simAttachRealStores(n, dir)
+		keys := make([]string, 0, len(n.w.objs))
+		for k := range n.w.objs {
+			keys = append(keys, k)
+		}
+		sort.Strings(keys)
+		for _, k := range keys {
+			o := n.w.opts[k]
+			if err := n.w.realB.Upload(context.Background(), k, n.w.objs[k], &o); err != nil {
+				panic("VERIF-INCONCLUSIVE: cannot populate the real LocalBackend of a cloned system: " + err.Error())
+			}
+		}
+		for id, v := range n.w.lock {
+			if err := n.w.realL.Create(context.Background(), id, v); err != nil {
+				panic("VERIF-INCONCLUSIVE: cannot populate the real lock database of a cloned system: " + err.Error())
+			}
+		}
+	}
 	n.model = append([]*vfref.Entry(nil), s.model...)
 	n.modelTree = *s.modelTree.Clone()
 	n.commits = append([]*simCkpt(nil), s.commits...)
